@@ -27,12 +27,13 @@ RULE = (
 TOLERANCES = {
     "residual never increases": "residual_after <= residual_before * (1 + 1e-9) + 1e-18",
     "exact map recovered": "max |apply(src) - dst| <= 1e-5 (Powell, tol 1e-6)",
+    "colour correction of an exactly distorted checker photo": "corrected swatch colours within 1.5e-2 of the reference (coarse end-to-end bound: float32 photo, area resampling of the checker, k-means swatch extraction leave up to 7e-3)",
     "accumulated == sequential stages": "1e-10 absolute on swatch values in [0, 1]",
 }
 ASSUMPTIONS = ["balances act on row vectors: x -> x @ A + b (apply_balance)", "a later stage is fitted on the swatches pre-balanced by the accumulated balance (AdaptiveBalance.find_balance)"]
 FLOORS = {
-    "quick": {"contract:residual_not_increased": 500, "exact_map_recovered": 150, "accumulated_equals_sequential": 140, "contract:stage_fit_logged": 500},
-    "thorough": {"contract:residual_not_increased": 5000, "exact_map_recovered": 1500, "accumulated_equals_sequential": 1400, "contract:stage_fit_logged": 5000},
+    "quick": {"contract:residual_not_increased": 500, "exact_map_recovered": 150, "accumulated_equals_sequential": 140, "contract:stage_fit_logged": 500, "correction_recovers_reference_swatches": 20},
+    "thorough": {"contract:residual_not_increased": 5000, "exact_map_recovered": 1500, "accumulated_equals_sequential": 1400, "contract:stage_fit_logged": 5000, "correction_recovers_reference_swatches": 200},
 }
 SHARD_TIMEOUT = {"quick": 1500, "thorough": 6000}
 MODES = ["diagonal", "linear", "affine"]
@@ -43,6 +44,7 @@ def shards(tier, seed):
     rounds = 4 if tier == "quick" else 40
     seqs = [list(s) for L in (2, 3) for s in itertools.product(MODES, repeat=L)]
     items = [{"kind": "staged", "seq": s, "round": r} for r in range(rounds) for s in seqs]
+    items += [{"kind": "correction", "round": r, "wb": bool(r % 2), "cb": ["affine", "linear"][(r // 2) % 2]} for r in range(rounds * 2)]
     items += [{"kind": "single", "cls": c, "truth": t, "round": r} for r in range(rounds * 3) for c, t in
               (("WhiteBalance", "diagonal"), ("ColorBalance", "linear"), ("ColorBalance", "diagonal"), ("AffineBalance", "affine"), ("AffineBalance", "linear"),
                ("AdaptiveBalance", "affine"))]
@@ -113,6 +115,32 @@ def run_shard(spec, R):
         if not R.want(["item", it["id"]]):
             continue
         rng = rng_for(spec["seed"], "C12", 0, it["id"])
+        if it["kind"] == "correction":
+            # the staged path in real use: ColorCorrection (white balance, then colour balance) on synthetic
+            # colour-checker photos whose swatches are an exact affine / linear distortion of the reference
+            # colours; the same correction object is used on several different photos (call history)
+            import cv2
+
+            from vf.checks.c10 import checker_photo
+
+            corr = None
+            for call in range(3):
+                arr, roi, ref = checker_photo(rng, darsia, (int(rng.integers(100, 140)), int(rng.integers(150, 200))), np.float32, linear_only=(it["cb"] == "linear"), ref=None if corr is None else ref0)
+                if corr is None:
+                    ref0 = ref
+                    corr = darsia.ColorCorrection(base=darsia.CustomColorChecker(reference_colors=ref0), config={"roi": roi, "whitebalancing": it["wb"], "colorbalancing": it["cb"]})
+                else:
+                    corr.roi = darsia.make_voxel(roi)
+                cv2.setRNGSeed(0)
+                ok, out = R.guarded("colour_correction", lambda: corr.correct_array(arr))
+                if not ok:
+                    break
+                cv2.setRNGSeed(0)
+                got = darsia.CustomColorChecker(image=corr._restrict_to_roi(out)).swatches_rgb
+                err = float(np.max(np.abs(got - ref0)))
+                R.check(err <= 1.5e-2, "correction_recovers_reference_swatches", lambda: {"whitebalancing": it["wb"], "colorbalancing": it["cb"], "call": call, "max_swatch_error": err}, group=f"{it['wb']}/{it['cb']}")
+            R.sig(["correction", it["wb"], it["cb"], it["round"]], True, cls="correction")
+            continue
         S = gen_swatches(rng)
         layout = "4x6x3" if S.ndim == 3 else "Nx3"
         if it["kind"] == "single":
